@@ -92,3 +92,7 @@ Definition fut_used : list dotted := [[n_y]].
 (* from pkg import s / import pkg.s: equal keys under sort_imports_alphabetically *)
 Definition tie_a : stmt := st (From [n_pkg] 0%N [(n_s, None)]).
 Definition tie_b : stmt := st (Normal [([n_pkg; n_s], None)]).
+
+(* import la / from la import x — body uses x and la.x (one object through two routes) *)
+Definition routes_stmts : list stmt := [st (Normal [([n_la], None)]); st (From [n_la] 0%N [(n_x, None)])].
+Definition routes_used : list dotted := [[n_x]; [n_la; n_x]; [n_la; n_y]].
